@@ -29,7 +29,7 @@ func init() {
 			"the window between the status load and the CAS inside Engine.Shutdown contains no park point; a second Shutdown is only judged when it starts after the first one has begun",
 			"signal handling (Spin) is not exercised",
 		},
-		RequiredProbes: []string{"conn-idle-at-shutdown", "conn-handler-running-at-shutdown", "conn-mid-request-at-shutdown", "hook-slow", "hook-beyond-deadline", "second-shutdown", "shutdown-before-run", "dial-after-shutdown", "wait-expired", "returned-early", "close-hdr-checked", "slow-accept-callback", "request-received-before-shutdown", "pipelined-request-received-before-shutdown", "listen-error", "slow-reader", "write-backpressure", "handler-sets-connection", "client-rst-during-handler"},
+		RequiredProbes: []string{"conn-idle-at-shutdown", "conn-handler-running-at-shutdown", "conn-mid-request-at-shutdown", "hook-slow", "hook-beyond-deadline", "second-shutdown", "shutdown-before-run", "dial-after-shutdown", "wait-expired", "returned-early", "close-hdr-checked", "slow-accept-callback", "request-received-before-shutdown", "pipelined-request-received-before-shutdown", "listen-error", "slow-reader", "write-backpressure", "handler-sets-connection", "client-rst-during-handler", "dial-during-drain"},
 	}
 }
 
@@ -372,7 +372,21 @@ func RunC18(ep *core.Episode) {
 	}
 	// late dials
 	lateDials := 0
+	drainDials := 0
 	S.AddSource(core.SourceFunc(func(add func(core.Event)) {
+		// one more dial reserved for the time a shutdown is draining
+		hmu.Lock()
+		inDrain := shutdownCalled && firstWasRunning && !beforeRun && !shutReturned && time.Now().After(shutdownAt)
+		hmu.Unlock()
+		if inDrain && drainDials < 1 {
+			add(core.Event{Key: "drain-dial", Weight: 3, Apply: func() {
+				drainDials++
+				ep.Probe("dial-during-drain")
+				if c := dialClient(200); c != nil {
+					ep.Fail("C18.no-accept", "a connection could be established %v after Shutdown had been called (while it was still draining)", time.Since(shutdownAt))
+				}
+			}})
+		}
 		if lateDials < 2 && (shutdownCalled || ln.Accepted > 0) {
 			add(core.Event{Key: fmt.Sprintf("late-dial %d", lateDials), Weight: 2, Apply: func() {
 				i := 100 + lateDials
